@@ -9,6 +9,7 @@ mod trace;
 mod props;
 mod scenes;
 mod selftest;
+mod vclock;
 mod vexec;
 mod world;
 
